@@ -15,6 +15,7 @@
 (* and which the serializers refuse is a COVERAGE expectation (reason starts with          *)
 (* "COVERAGE"): the check turns it into exit 2, never into a violation.                    *)
 EXTENDS KeyParams, Json, TLC
+W == INSTANCE KeyFormatWire
 
 Trace == ndJsonDeserialize(IOEnv.VERIF_TRACE)
 Start == IF "VERIF_START" \in DOMAIN IOEnv THEN atoi(IOEnv.VERIF_START) ELSE 1
@@ -42,6 +43,9 @@ JudgeTemplate(T, p, t) ==
          THEN <<"re-serialized template is not byte-identical", t.value>>
   ELSE IF t.url # TypeURL(T, TemplateKind(T)) THEN <<"template type URL", TypeURL(T, TemplateKind(T))>>
   ELSE IF t.prefix # PrefixOf(VariantOf(T, p)) THEN <<"template output prefix type does not match the variant", PrefixOf(VariantOf(T, p))>>
+  ELSE IF TemplateRepresentable(T, p) /\ W!TemplateMismatch(T, p, t.value) # <<>>
+         THEN <<"template does not carry a parameter at its documented proto field", "field " \o W!TemplateMismatch(T, p, t.value)[1],
+                W!TemplateMismatch(T, p, t.value)[2]>>
   ELSE <<>>
 
 IdReq(T, p, k) == IF HasIdRequirement(VariantOf(T, p)) THEN k.id ELSE "none"
